@@ -9,7 +9,9 @@ LC_NOTE = ("Trusted: shim contracts for tokio mpsc/select!/task-local (A1,A3,A5)
 
 SEND_NOTE = ("Trusted: shim contracts for tokio mpsc/oneshot/timeout (A1,A2,A4,A5: linearizable FIFO, send Ok iff enqueued, cancel-safe send, "
              "timeout polls inner first), effect-log model of suspension points (rule T), extraction rules, Verus/Z3. The composition from per-call "
-             "relations + lifecycle monitor to the whole-history statement (lemma L1 of DESIGN) is argued in DESIGN.md section 3, not machine-checked.")
+             "relations + lifecycle monitor to the whole-history statement is lemma L1 (contracts/vocab.rs, machine-checked): its hypotheses are A1 (taken order is a "
+             "prefix of accepted order) and the monitor facts (nothing taken after the stop marker; handled = taken envelopes in order); linking those hypotheses to the "
+             "per-function contracts is argued in DESIGN.md section 3.")
 CLAIMS = {
     "C01": dict(
         text="Per-function obligations that together give exactly-once: tell/ask/*_with_timeout/stop each make exactly one waiting enqueue attempt on the one "
